@@ -137,6 +137,15 @@ theorem hasInstance_walk_refines (σ : FnM.St) (p n x : Nat) :
     FnM.protoWalk σ n ((σ.obj? x).bind (·.proto)) p = Fn.hasInstance.walk p (absSt σ) n x :=
   protoWalk_spec σ p n x
 
+/-- **expr_refines_partial** — the evaluator simulation for the read-only identifier fragment (see FnRefine):
+    same value or same error, the host log extended by the same tokens, nothing else changed, unless otto runs
+    out of fuel.  The full `fn_refines` (all expressions and statements, states related by an address-renaming
+    relation, induction on fuel) is open. -/
+theorem expr_refines_partial (sc : FnM.Scope) (rest : List FnM.Scope) (xs : List String) (n : Nat) (e : Fn.FE)
+    (hro : ro e = true) (hid : ∀ x ∈ idents e, x ∈ xs) (σ : FnM.St) (hI : ROInv σ xs) (hsc : σ.scopes = sc :: rest) :
+    ROSim n e sc σ :=
+  FnRefine.expr_refines_partial sc rest xs n e hro hid σ hI hsc
+
 /-! ## the conditions are satisfiable: decidable checkers, and a concrete state -/
 
 def isArgs : FnM.OVal → Bool | .arguments .. => true | _ => false
@@ -308,5 +317,34 @@ example : (match Fn.instantiate 5 1 { env := 1, venv := 1, this := .ref Fn.gObj 
 example : modelThis (refOf σ1 "f" (Fn.envResolve (absSt σ1) 4 2 "f")) = .ref 11 := by decide
 example : effThis (modelThis (refOf σ1 "y" (Fn.envResolve (absSt σ1) 4 2 "y"))) = .ref Fn.gObj := by decide
 example : FnM.protoWalk σ1 5 ((σ1.obj? 11).bind (·.proto)) FnM.objProto = true := by decide
+
+theorem clsWF_of_check (σ : FnM.St)
+    (h : (σ.heap.all fun o =>
+      ((o.cls == "Function") == Fn.isFnKind (absKind o.val)) &&
+      ((o.cls == "Error") == isErr o.val) && ((o.cls == "Arguments") == isArgs o.val)) = true) : ClsWF σ := by
+  intro a o ho
+  have := List.all_eq_true.1 h o (obj_mem σ a o ho)
+  simp only [Bool.and_eq_true, beq_iff_eq] at this
+  refine ⟨this.1.1, ?_, ?_⟩
+  · rw [this.1.2]; cases o.val <;> rfl
+  · rw [this.2]; cases o.val <;> rfl
+
+/-- σ1 inside the function whose stash is 2 (within `with (object 11)`): log(x + y) reads x from the with object
+    and y from the function stash -/
+def σ1s : FnM.St := { σ1 with scopes := [ { lexical := 2, variable_ := 2, this := FnM.gObj } ] }
+
+theorem roInv_σ1s : ROInv σ1s ["x", "y", "nowhere"] :=
+  ⟨fun x hx => by
+      simp only [List.mem_cons, List.mem_nil_iff, or_false] at hx
+      rcases hx with rfl | rfl | rfl <;> exact visible_of_check σ1s _ (by decide),
+   rfl, (noArgs_checks σ1s (by decide)).1, (noArgs_checks σ1s (by decide)).2, errWF_of_check σ1s (by decide),
+   (stash_checks σ1s (by decide)).1, clsWF_of_check σ1s (by decide)⟩
+
+example : ROSim 6 (.log (.add (.var "x") (.var "y"))) { lexical := 2, variable_ := 2, this := FnM.gObj } σ1s :=
+  expr_refines_partial _ [] _ 6 _ rfl (by decide) σ1s roInv_σ1s rfl
+example : (match evalV 6 (.log (.add (.var "x") (.var "y"))) σ1s with | .ok v s => (v, s.trace) | _ => (.undef, [])) = (.num 3, ["n3"]) := by decide
+example : (match Fn.evalE 6 (.log (.add (.var "x") (.var "y"))) (ctxOf { lexical := 2, variable_ := 2, this := FnM.gObj }) (absSt σ1s) with
+    | .ok v s => (v, s.trace) | _ => (.undef, [])) = (.num 3, ["n3"]) := by rfl
+example : (match evalV 6 (.typeof (.var "nowhere")) σ1s with | .ok v _ => v | _ => .undef) = .str "undefined" := by decide
 
 end OttoVerif.C01.FnThm
